@@ -110,3 +110,61 @@ Print Assumptions C06_stranded_exact_graph.
 Print Assumptions C06_chk_graph_exact_sound.
 Print Assumptions C06_graph_nonvacuous.
 Print Assumptions C06_stranded_nonvacuous.
+
+(* ==== the DIRECT pipeline (work package e2e): no proviso left ====================================================== *)
+(* C06_graph_rc_invariant_direct: unstranded, K >= 4, reads over {A,C,G,T}, every threshold and join mode, any subset of
+   the reads reverse-complemented, any two duplicate-free iteration orders of the two hash tables: the graphs the direct
+   model pipeline builds from the reads and from the flipped reads are the same assembly (same partition of the canonical
+   k-mers into nodes, same payloads per node, same canonical link set - the two sides of a palindromic k-mer identified).
+   From C04_direct_assembly (Properties/C04.v) + C06_assembly_of_flip + C04_assembly_unique.  [NoDup order]: a guard of
+   the MODEL only (the order is an oracle input; the real table iterates every key once).
+   STILL MISSING for the full C06 graph statement: the sharded and re-compressed pipeline variants. *)
+From DBG Require Import Proofs.E2eDirect Proofs.E2eCorollaries.
+Local Open Scope nat_scope.
+
+Theorem C06_graph_rc_invariant_direct : forall K thr mode fs (lreads : list lread) order order' g g',
+  4 <= K -> Forall (fun r => wf_dna (fst r)) lreads -> NoDup order -> NoDup order' ->
+  direct K false thr mode 0 lreads order = Some g ->
+  direct K false thr mode 0 (flip_lreads fs lreads) order' = Some g' ->
+  same_assembly K false mode g g'.
+Proof. exact graph_rc_invariant_direct. Qed.
+(* both runs succeed whenever the orders list the retained k-mers (the two tables have the same keys) *)
+Theorem C06_graph_rc_invariant_direct_total : forall K thr mode fs (lreads : list lread) order order',
+  4 <= K -> Forall (fun r => wf_dna (fst r)) lreads ->
+  Permutation order (retained K false thr (map fst lreads)) -> Permutation order' (retained K false thr (map fst lreads)) ->
+  exists g g', direct K false thr mode 0 lreads order = Some g /\
+               direct K false thr mode 0 (flip_lreads fs lreads) order' = Some g' /\
+               same_assembly K false mode g g'.
+Proof. exact graph_rc_invariant_direct_total. Qed.
+(* stranded_exact for the direct pipeline: the graph holds exactly the forward k-mers with >= thr forward occurrences,
+   each once, and exactly the forward (K+1)-mers of the reads between two of them *)
+Theorem C06_stranded_exact_direct : forall K thr mode (lreads : list lread) order g,
+  4 <= K -> Forall (fun r => wf_dna (fst r)) lreads -> NoDup order ->
+  direct K true thr mode 0 lreads order = Some g ->
+  NoDup (graph_kmers K true g) /\
+  (forall x, In x (graph_kmers K true g) <->
+             In x (flat_map (kmers K) (map fst lreads)) /\
+             (thr <= N.of_nat (length (filter (dna_eqb x) (flat_map (kmers K) (map fst lreads)))))%N) /\
+  (forall w, In w (graph_links K true g) <->
+             In w (flat_map (kmers (S K)) (map fst lreads)) /\ In (firstn K w) (graph_kmers K true g) /\ In (skipn 1 w) (graph_kmers K true g)).
+Proof. exact stranded_exact_direct. Qed.
+
+(* non-vacuity: the reads of the example above (palindrome TCGA), second read flipped, ascending order for the first
+   run and descending order for the second: both runs succeed, the graphs differ as lists *)
+Definition ex6_order' : list dna := Eval vm_compute in rev ex6_order.
+Example C06_graph_direct_nonvacuous :
+  Forall (fun r => wf_dna (fst r)) ex6_reads /\
+  Permutation ex6_order (retained 4 false 1 (map fst ex6_reads)) /\ Permutation ex6_order' (retained 4 false 1 (map fst ex6_reads)) /\
+  exists g g', direct 4 false 1 0 0 ex6_reads ex6_order = Some g /\
+               direct 4 false 1 0 0 (flip_lreads ex6_flips ex6_reads) ex6_order' = Some g' /\ g <> g'.
+Proof.
+  split; [repeat constructor; cbv; auto|].
+  assert (E : ex6_order = retained 4 false 1 (map fst ex6_reads)) by (vm_compute; reflexivity).
+  split; [rewrite E; reflexivity|]. split; [unfold ex6_order'; rewrite <- E; symmetry; apply Permutation_rev|].
+  do 2 eexists. split; [vm_compute; reflexivity|]. split; [vm_compute; reflexivity|]. vm_compute. intro H. discriminate H.
+Qed.
+
+Print Assumptions C06_graph_rc_invariant_direct.
+Print Assumptions C06_graph_rc_invariant_direct_total.
+Print Assumptions C06_stranded_exact_direct.
+Print Assumptions C06_graph_direct_nonvacuous.
